@@ -89,9 +89,14 @@ Qed.
 
 (** * A history with a proposed header, an entrance with a key, the local prevote and the local precommit
     (which commits the block: one validator), a crash in the middle of a nil precommit of height 2, a restart,
-    a second entrance with the key, the local validator's own proposed header of height 2, two reads *)
+    a second entrance with the key, a local proposed header that is dropped, the local validator's own proposed
+    header of height 2 (round 1: the start-up re-evaluation of the stored nil precommit moved the mirror on), two reads *)
 Definition x_ph2_hdr : hdr := mk_hdr [8] true 2 [9] (mk_cproof 0 [1] [([9], [sg7 KPrecommit 1 0 [9]])]) ex_vs ex_vs.
-Definition x_ph2 : ph := mk_ph x_ph2_hdr 0 (Some 7) (SProposal 7 [6] 0) [6].
+Definition x_ph2 : ph := mk_ph x_ph2_hdr 1 (Some 7) (SProposal 7 [6] 1) [6].
+
+(** a local proposed header for a height the mirror is not at: dropped, so nothing is asked of it (wrong hash,
+    next validator set of power 0) *)
+Definition x_ph_dropped : ph := mk_ph (mk_hdr [4] false 9 [] empty_cproof ex_zero ex_zero) 0 (Some 7) (SJunk 3) [].
 
 Definition x_ops : list mop :=
   [MK (XOp e_ph);
@@ -101,6 +106,7 @@ Definition x_ops : list mop :=
    MK (XCrash 1 (OpPrecommit (ex_precommit 2 0 [1] [])));
    MK XRestart;
    MEnterK 2 1 (Some 7);
+   MActPH x_ph_dropped;
    MActPH x_ph2;
    MSMRead;
    MGRead].
@@ -110,7 +116,7 @@ Definition x_state : mstate := mstate_after 1 ex_vs x_ops.
 Example x_state_reachable :
   vwf ex_vs /\ mreachable_a 1 ex_vs x_state /\
   st_nhr (ms_k x_state) = (2, 1, 1, 0) /\ List.length (st_hdrs (ms_k x_state)) = 1%nat /\
-  List.length (v_phs (k_vot (ms_k x_state))) = 0%nat /\
+  v_phs (k_vot (ms_k x_state)) = [x_ph2] /\
   smm_key (m_sm (ms_m x_state)) = Some 7.
 Proof.
   split; [exact ex_vs_vwf|]. split; [apply mstate_after_reachable; vm_compute; reflexivity|].
